@@ -434,6 +434,18 @@ func (p *Prog) segClass(v ssa.Value, isPath func(ssa.Value) bool, depth int) str
 	}
 	switch x := v.(type) {
 	case *ssa.Call:
+		// what is left of the path after "<parent>." is the last segment; the Trim family with a cutset is something else
+		if isCallTo(&x.Call, "strings.TrimPrefix", "strings.TrimLeft", "strings.Trim") && isPath(x.Call.Args[0]) {
+			if bo, ok := x.Call.Args[1].(*ssa.BinOp); ok && bo.Op == token.ADD {
+				if sv, isS := constString(bo.Y); isS && sv == "." && p.segClass(bo.X, isPath, depth+1) == "parent" {
+					if isCallTo(&x.Call, "strings.TrimPrefix") {
+						return "last"
+					}
+					return "cutset-trimmed"
+				}
+			}
+			return ""
+		}
 		if isCallTo(&x.Call, "strings.Join") {
 			if sl, ok := x.Call.Args[0].(*ssa.Slice); ok && splitOf(sl.X) {
 				switch {
@@ -635,6 +647,38 @@ func rulePathSegments(p *Prog, r *Report) {
 	}
 	// (2) the key deleted in the parent map is the last segment
 	nd := 0
+	// SetValueForPath writes under the last segment of its path
+	if sf := p.Fn("mxj.Map.SetValueForPath"); sf != nil && len(sf.Blocks) > 0 {
+		ns := 0
+		eachInstr(sf, func(b *ssa.BasicBlock, in ssa.Instruction) {
+			mu, ok := in.(*ssa.MapUpdate)
+			if !ok || !isMapShaped(mu.Map.Type()) {
+				return
+			}
+			ns++
+			cls := ""
+			for _, prm := range sf.Params {
+				if !isStringType(prm.Type()) {
+					continue
+				}
+				pv := prm
+				if k := p.segClass(mu.Key, func(v ssa.Value) bool { return v == ssa.Value(pv) }, 0); k != "" {
+					cls = k
+				}
+			}
+			switch cls {
+			case "last":
+				r.OK(rule, p.Name(sf), "the value is set under the last segment", p.Pos(mu.Pos()), "parent[last segment of the path] = value")
+			case "":
+				r.Unknown(rule, p.Name(sf), "the value is set under the last segment", p.Pos(mu.Pos()), "the key written is not recognised as a part of the path")
+			default:
+				r.Bad(rule, p.Name(sf), "the value is set under the last segment", p.Pos(mu.Pos()), "the key written is the '"+cls+"' part of the path, not its last segment")
+			}
+		})
+		if ns == 0 {
+			r.Unknown(rule, p.Name(sf), "the value is set under the last segment", p.Pos(sf.Pos()), "no map write found")
+		}
+	}
 	for _, f := range p.scopeFuncs(r, rule, []string{"mxj.Map.RenameKey", "mxj.Map.Remove"}) {
 		if len(f.Blocks) == 0 {
 			continue
@@ -1316,6 +1360,25 @@ func ruleWalkCurrent(p *Prog, r *Report, fns []*ssa.Function) {
 			continue
 		}
 		n++
+		// (c) segment names are interpreted by the path walker only ('*' is a wildcard there): the indexed walker never looks a
+		// segment name up in a map itself
+		direct := ""
+		eachInstr(fn, func(b *ssa.BasicBlock, in ssa.Instruction) {
+			lk, ok := in.(*ssa.Lookup)
+			if !ok || !isMapShaped(lk.X.Type()) {
+				return
+			}
+			for x := range backwardSlice(fn, lk.Index) {
+				if fa, ok := x.(*ssa.FieldAddr); ok && isStringType(derefType(fa.Type())) {
+					direct = p.Pos(lk.Pos())
+				}
+			}
+		})
+		if direct == "" {
+			r.OK(rule, name, "segments are resolved by the path walker only", p.Pos(fn.Pos()), "no map lookup keyed by a segment name")
+		} else {
+			r.Bad(rule, name, "segments are resolved by the path walker only", direct, "a segment name is looked up in a map directly: a wildcard segment is taken for a missing key, and pending segments are ignored")
+		}
 		for _, ph := range nodePhis {
 			body := naturalLoop(ph.Block())
 			// blocks that leave the loop for good (break) belong to an iteration as well: everything behind the body-entry edge
@@ -1870,6 +1933,16 @@ func ruleFwdNames(p *Prog, r *Report, filter func(name string) bool) {
 					checked = true
 				}
 			}
+			// an option list of the same name and type in caller and callee is handed on, not dropped
+			if fn.Signature.Variadic() && g.Signature.Variadic() && len(fn.Params) > 0 && len(g.Params) > 0 && len(args) == len(g.Params) {
+				cp, gp := fn.Params[len(fn.Params)-1], g.Params[len(g.Params)-1]
+				if cp.Name() == gp.Name() && types.Identical(cp.Type(), gp.Type()) {
+					checked = true
+					if isNilConst(args[len(args)-1]) {
+						bad = fmt.Sprintf("the optional argument %s is not handed on to %s, which takes an option of the same name", cp.Name(), p.Name(g))
+					}
+				}
+			}
 			if !checked {
 				return
 			}
@@ -1878,7 +1951,11 @@ func ruleFwdNames(p *Prog, r *Report, filter func(name string) bool) {
 			if bad == "" {
 				r.OK(rule, name, cons, p.Pos(in.Pos()), "every forwarded parameter sits in the position of the callee's parameter of the same name")
 			} else {
-				r.Bad(rule, name, cons, p.Pos(in.Pos()), bad+": two arguments of the same type are swapped")
+				if strings.Contains(bad, "not handed on") {
+					r.Bad(rule, name, cons, p.Pos(in.Pos()), bad+": on this path the caller's option has no effect")
+				} else {
+					r.Bad(rule, name, cons, p.Pos(in.Pos()), bad+": two arguments of the same type are swapped")
+				}
 			}
 		})
 	}
@@ -2924,4 +3001,561 @@ func (p *Prog) alwaysWrites(h *ssa.Function, enc *ssa.Function, depth int) bool 
 		}
 	}
 	return true
+}
+
+// ---- round 12 ---------------------------------------------------------------------------------------------------------------------------
+
+// ruleSeqCastTag (CAST.seqtag, C18, C14): the sequence decoder hands cast() the empty tag: the function registered with
+// SetCheckTagToSkipFunc is documented not to apply to the NewMapXmlSeq family, and cast() consults it for a non-empty tag only.
+func ruleSeqCastTag(p *Prog, r *Report) {
+	const rule = "CAST.seqtag"
+	dec, castFn := p.Fn("mxj.xmlSeqToMapParser"), p.Fn("mxj.cast")
+	if dec == nil || castFn == nil {
+		r.Anchor(rule, "mxj.xmlSeqToMapParser")
+		return
+	}
+	ord := newOrdinals()
+	sites := p.decoderCastSites(dec, castFn)
+	for _, c := range sites {
+		cons := ord.key(p.Name(c.Parent()), "cast tag of the sequence decoder is empty")
+		if s, ok := constString(c.Call.Args[2]); ok && s == "" {
+			r.OK(rule, p.Name(c.Parent()), cons, p.Pos(c.Pos()), "cast(text, flag, \"\")")
+		} else {
+			r.Bad(rule, p.Name(c.Parent()), cons, p.Pos(c.Pos()), "the sequence decoder hands cast() a tag: the skip-tag function, documented not to apply to the sequence decoder, now decides whether these values are cast")
+		}
+	}
+	if len(sites) == 0 {
+		r.Unknown(rule, "mxj.xmlSeqToMapParser", "cast tag of the sequence decoder is empty", p.Pos(dec.Pos()), "no cast() call found")
+	}
+}
+
+// ruleCopyNonNil (COPY.nonnil, C12): the helpers that copy a list for NewMap return a list of the same length, also when it is
+// empty: the slice they return is allocated (make / a literal), never the zero slice grown by append, which stays nil for an empty list
+// and turns `[]` into null.
+func ruleCopyNonNil(p *Prog, r *Report) {
+	const rule = "COPY.nonnil"
+	root := p.Fn("mxj.Map.NewMap")
+	if root == nil {
+		r.Anchor(rule, "mxj.Map.NewMap")
+		return
+	}
+	n := 0
+	for f := range p.Reach(root) {
+		if !p.InModule(f) || p.Exported(f) || len(f.Blocks) == 0 {
+			continue
+		}
+		res := f.Signature.Results()
+		if res.Len() != 1 {
+			continue
+		}
+		sl, ok := res.At(0).Type().Underlying().(*types.Slice)
+		if !ok || !isEmptyIface(sl.Elem()) || len(f.Params) != 1 || !types.Identical(f.Params[0].Type(), res.At(0).Type()) {
+			continue
+		}
+		n++
+		bad := ""
+		eachInstr(f, func(b *ssa.BasicBlock, in ssa.Instruction) {
+			ret, ok := in.(*ssa.Return)
+			if !ok {
+				return
+			}
+			seen := map[ssa.Value]bool{}
+			var mayNil func(v ssa.Value) bool
+			mayNil = func(v ssa.Value) bool {
+				if seen[v] {
+					return false
+				}
+				seen[v] = true
+				switch x := v.(type) {
+				case *ssa.Const:
+					return x.IsNil()
+				case *ssa.Phi:
+					for _, e := range x.Edges {
+						if mayNil(e) {
+							return true
+						}
+					}
+					return false
+				case *ssa.Call:
+					if isBuiltin(x, "append") {
+						return mayNil(x.Call.Args[0])
+					}
+				case *ssa.Slice:
+					return mayNil(x.X)
+				}
+				return false
+			}
+			if mayNil(ret.Results[0]) {
+				bad = p.Pos(ret.Pos())
+			}
+		})
+		if bad == "" {
+			r.OK(rule, p.Name(f), "the copy of an empty list is an empty list", p.Pos(f.Pos()), "the returned slice is allocated on every path")
+		} else {
+			r.Bad(rule, p.Name(f), "the copy of an empty list is an empty list", bad, "the slice returned at "+bad+" can be the zero slice (declared without make and only grown by append): the copy of an empty list is nil, which encodes as null instead of []")
+		}
+	}
+	if n == 0 {
+		r.Unknown(rule, "mxj.Map.NewMap", "list copy helper", "-", "no list-copying helper found below NewMap")
+	}
+}
+
+// ruleTypedValueUsed (PAIR.update clause, C10): the number or boolean parsed from a "key:value:type" new value is the value the
+// walker is given: every successful strconv.Parse* result computed while the new value is taken apart flows into the value argument
+// of the walker call. A result assigned to a variable that shadows the one handed on leaves the uncast string in place.
+func ruleTypedValueUsed(p *Prog, r *Report, api string) {
+	const rule = "PAIR.update"
+	fn := p.Fn(api)
+	if fn == nil {
+		r.Anchor(rule, api)
+		return
+	}
+	// the walker call: unexported module callee that receives a counter pointer
+	var walk *ssa.Call
+	eachInstr(fn, func(b *ssa.BasicBlock, in ssa.Instruction) {
+		c, ok := in.(*ssa.Call)
+		if !ok {
+			return
+		}
+		g := staticCallee(&c.Call)
+		if g == nil || !p.InModule(g) || p.Exported(g) {
+			return
+		}
+		for _, a := range c.Call.Args {
+			if pt, ok := a.Type().Underlying().(*types.Pointer); ok && isIntType(pt.Elem()) {
+				walk = c
+			}
+		}
+	})
+	if walk == nil {
+		r.Unknown(rule, api, "typed new value reaches the walker", p.Pos(fn.Pos()), "the walker call was not found")
+		return
+	}
+	var valArg ssa.Value
+	for _, a := range walk.Call.Args {
+		if isEmptyIface(a.Type()) {
+			valArg = a
+			break
+		}
+	}
+	if valArg == nil {
+		r.Unknown(rule, api, "typed new value reaches the walker", p.Pos(walk.Pos()), "the walker's value argument was not found")
+		return
+	}
+	slice := backwardSlice(fn, valArg)
+	n, bad := 0, ""
+	// Parse* calls in the function itself, or in an unexported helper whose result must then flow on
+	eachInstr(fn, func(b *ssa.BasicBlock, in ssa.Instruction) {
+		c, ok := in.(*ssa.Call)
+		if !ok {
+			return
+		}
+		isParse := hasPrefixAny(p.calleeName(&c.Call), "strconv.Parse")
+		if !isParse {
+			if g := staticCallee(&c.Call); g != nil && p.InModule(g) && !p.Exported(g) && len(g.Blocks) > 0 {
+				eachInstr(g, func(b2 *ssa.BasicBlock, i2 ssa.Instruction) {
+					if c2, ok := i2.(*ssa.Call); ok && hasPrefixAny(p.calleeName(&c2.Call), "strconv.Parse") {
+						isParse = true
+					}
+				})
+			}
+		}
+		if !isParse {
+			return
+		}
+		// only conversions of (parts of) the new value
+		fromNew := false
+		for _, a := range c.Call.Args {
+			for x := range backwardSlice(fn, a) {
+				if prm, ok := x.(*ssa.Parameter); ok && isEmptyIface(prm.Type()) {
+					fromNew = true
+				}
+			}
+		}
+		if !fromNew {
+			return
+		}
+		n++
+		if !slice[c] {
+			bad = p.Pos(c.Pos())
+		}
+	})
+	switch {
+	case n == 0:
+		r.Unknown(rule, api, "typed new value reaches the walker", p.Pos(fn.Pos()), "no conversion of the typed new value found")
+	case bad != "":
+		r.Bad(rule, api, "typed new value reaches the walker", bad, "the value converted at "+bad+" never reaches the value argument of the walker: the entries are set to the uncast string instead of the number or boolean asked for")
+	default:
+		r.OK(rule, api, "typed new value reaches the walker", p.Pos(walk.Pos()), fmt.Sprintf("%d conversion(s), each in the backward slice of the walker's value argument", n))
+	}
+}
+
+// ruleResultOwnArray (ALIAS.result, C20, C07): a walker that collects into a result slice handed to it through a pointer never makes the
+// document's own list the result (`*ret = node.([]interface{})`): the result would share the list's array, later appends write into
+// the document's spare capacity and the caller can change the document through the result.
+func ruleResultOwnArray(p *Prog, r *Report, names []string) {
+	const rule = "ALIAS.result"
+	for _, n := range names {
+		fn := p.Fn(n)
+		if fn == nil {
+			r.Anchor(rule, n)
+			continue
+		}
+		var ret *ssa.Parameter
+		for _, prm := range fn.Params {
+			if pt, ok := prm.Type().Underlying().(*types.Pointer); ok {
+				if _, isSl := pt.Elem().Underlying().(*types.Slice); isSl {
+					ret = prm
+				}
+			}
+		}
+		if ret == nil {
+			r.Unknown(rule, n, "result pointer", p.Pos(fn.Pos()), "no result pointer parameter")
+			continue
+		}
+		bad, ns := "", 0
+		eachInstr(fn, func(b *ssa.BasicBlock, in ssa.Instruction) {
+			st, ok := in.(*ssa.Store)
+			if !ok || st.Addr != ssa.Value(ret) {
+				return
+			}
+			ns++
+			// allowed: append(<load of *ret> …, …), a re-slice of *ret, a make
+			seen := map[ssa.Value]bool{}
+			var fromNode func(v ssa.Value) bool
+			fromNode = func(v ssa.Value) bool {
+				if seen[v] {
+					return false
+				}
+				seen[v] = true
+				switch x := v.(type) {
+				case *ssa.TypeAssert:
+					return true
+				case *ssa.Extract:
+					_, isTA := x.Tuple.(*ssa.TypeAssert)
+					return isTA
+				case *ssa.Phi:
+					for _, e := range x.Edges {
+						if fromNode(e) {
+							return true
+						}
+					}
+				case *ssa.Slice:
+					return fromNode(x.X)
+				case *ssa.Call:
+					if isBuiltin(x, "append") {
+						return fromNode(x.Call.Args[0])
+					}
+				}
+				return false
+			}
+			if fromNode(st.Val) {
+				bad = p.Pos(st.Pos())
+			}
+		})
+		if bad != "" {
+			r.Bad(rule, n, "the result has an array of its own", bad, "the result slice is set to (or grown from) a list of the document itself at "+bad+": the result and the document share one array")
+		} else if ns > 0 {
+			r.OK(rule, n, "the result has an array of its own", p.Pos(fn.Pos()), fmt.Sprintf("%d stores to the result, none of them a list taken from the node", ns))
+		} else {
+			r.Unknown(rule, n, "the result has an array of its own", p.Pos(fn.Pos()), "no store to the result found")
+		}
+	}
+}
+
+// ruleJsonListWrapAlways (JSON.listwrap clause, C06): every input whose first byte is '[' is wrapped: from the true edge of the
+// test jsonVal[0] == '[' no path reaches the decoder without passing the wrapper (a second condition on the test narrows the
+// special case and lets some lists through to a decoder that rejects them).
+func ruleJsonListWrapAlways(p *Prog, r *Report) {
+	const rule = "JSON.listwrap"
+	fn := p.Fn("mxj.NewMapJson")
+	if fn == nil {
+		r.Anchor(rule, "mxj.NewMapJson")
+		return
+	}
+	isWrapConst := func(v ssa.Value) bool {
+		if cv, ok := v.(*ssa.Convert); ok {
+			v = cv.X
+		}
+		s, ok := constString(v)
+		return ok && len(s) > 2 && s[0] == '{' && s[len(s)-1] == ':'
+	}
+	wrapBlk := map[*ssa.BasicBlock]bool{}
+	decBlk := map[*ssa.BasicBlock]bool{}
+	var test *ssa.If
+	testIdx := 0
+	eachInstr(fn, func(b *ssa.BasicBlock, in ssa.Instruction) {
+		for _, op := range in.Operands(nil) {
+			if op != nil && *op != nil && isWrapConst(*op) {
+				wrapBlk[b] = true
+			}
+		}
+		if c, ok := in.(*ssa.Call); ok {
+			if h := staticCallee(&c.Call); h != nil && p.InModule(h) && !p.Exported(h) && len(h.Blocks) > 0 {
+				eachInstr(h, func(b2 *ssa.BasicBlock, i2 ssa.Instruction) {
+					for _, op := range i2.Operands(nil) {
+						if op != nil && *op != nil && isWrapConst(*op) {
+							wrapBlk[b] = true
+						}
+					}
+					if c2, ok := i2.(ssa.CallInstruction); ok && isCallTo(c2.Common(), "(*encoding/json.Decoder).Decode", "encoding/json.Unmarshal") && !wrapBlk[b] {
+						decBlk[b] = true
+					}
+				})
+			}
+		}
+		if c, ok := in.(ssa.CallInstruction); ok && isCallTo(c.Common(), "(*encoding/json.Decoder).Decode", "encoding/json.Unmarshal") {
+			decBlk[b] = true
+		}
+		if ifi, ok := in.(*ssa.If); ok {
+			if bo, ok := ifi.Cond.(*ssa.BinOp); ok && (bo.Op == token.EQL || bo.Op == token.NEQ) {
+				if k, isK := constInt(bo.Y); isK && k == '[' {
+					if u, ok := bo.X.(*ssa.UnOp); ok {
+						if ia, ok := u.X.(*ssa.IndexAddr); ok && ia.X == ssa.Value(fn.Params[0]) {
+							test = ifi
+							if bo.Op == token.NEQ {
+								testIdx = 1
+							}
+						}
+					}
+				}
+			}
+		}
+	})
+	if test == nil || len(wrapBlk) == 0 || len(decBlk) == 0 {
+		r.Unknown(rule, p.Name(fn), "every top-level list is wrapped", p.Pos(fn.Pos()), "the test for '[', the wrapper or the decoding call was not found")
+		return
+	}
+	bad := false
+	seen := map[*ssa.BasicBlock]bool{}
+	work := []*ssa.BasicBlock{test.Block().Succs[testIdx]}
+	for len(work) > 0 {
+		b := work[len(work)-1]
+		work = work[:len(work)-1]
+		if seen[b] || wrapBlk[b] {
+			continue
+		}
+		seen[b] = true
+		if decBlk[b] {
+			bad = true
+			break
+		}
+		work = append(work, b.Succs...)
+	}
+	if bad {
+		r.Bad(rule, p.Name(fn), "every top-level list is wrapped", p.Pos(test.Pos()), "an input that starts with '[' can reach the decoder without the object wrapper (a further condition narrows the special case): such lists are rejected instead of being decoded under the object key")
+	} else {
+		r.OK(rule, p.Name(fn), "every top-level list is wrapped", p.Pos(test.Pos()), "from the true edge of jsonVal[0] == '[' every path to the decoder passes the wrapper")
+	}
+}
+
+// ruleJsonScanEscape (JSON.escape clause, C13, C19): inside a string every byte updates the "previous byte was an unescaped backslash"
+// flag: no path on which the scanner is inside a string returns to the read without passing the block that computes the flag's
+// new value (a fast path for ordinary string bytes that skips the update leaves the flag set after `\\n`).
+func ruleJsonScanEscape(p *Prog, r *Report, name string) {
+	const rule = "JSON.escape"
+	fn := p.Fn(name)
+	if fn == nil {
+		r.Anchor(rule, name)
+		return
+	}
+	isByte := func(v ssa.Value) bool {
+		u, ok := v.(*ssa.UnOp)
+		if !ok {
+			return false
+		}
+		ia, ok := u.X.(*ssa.IndexAddr)
+		if !ok {
+			return false
+		}
+		k, isK := constInt(ia.Index)
+		return isK && k == 0 && isByteSlice(ia.X.Type())
+	}
+	// the block that compares the byte with a backslash: where the flag's new value is computed
+	var upd *ssa.BasicBlock
+	eachInstr(fn, func(b *ssa.BasicBlock, in ssa.Instruction) {
+		if bo, ok := in.(*ssa.BinOp); ok && bo.Op == token.EQL && isByte(bo.X) {
+			if k, isK := constInt(bo.Y); isK && k == 92 && innermostLoopHeader(b) != nil {
+				upd = b
+			}
+		}
+	})
+	if upd == nil {
+		r.Unknown(rule, name, "the escape flag follows every byte of a string", p.Pos(fn.Pos()), "no comparison of the byte with a backslash found in the read loop")
+		return
+	}
+	hdr := innermostLoopHeader(upd)
+	body := naturalLoop(hdr)
+	// blocks from which upd is reached on every way back to the header: simply, upd dominates the latch … the flag phi at the
+	// header must get, on every back edge taken inside a string, a value computed after upd. Search: from the header, follow paths
+	// for received bytes with in-quote == true; reaching the header again without passing upd is the defect.
+	quote := map[ssa.Value]bool{}
+	for _, in := range hdr.Instrs {
+		ph, ok := in.(*ssa.Phi)
+		if !ok {
+			break
+		}
+		if !isBoolType(ph.Type()) {
+			continue
+		}
+		hasT, hasF := false, false
+		seenV := map[ssa.Value]bool{}
+		var walk func(v ssa.Value)
+		walk = func(v ssa.Value) {
+			if seenV[v] {
+				return
+			}
+			seenV[v] = true
+			if bv, isC := constBool(v); isC {
+				if bv {
+					hasT = true
+				} else {
+					hasF = true
+				}
+				return
+			}
+			if q, ok := v.(*ssa.Phi); ok && q != ph {
+				for _, e := range q.Edges {
+					walk(e)
+				}
+			}
+			if u, ok := v.(*ssa.UnOp); ok && u.Op == token.NOT && u.X == ssa.Value(ph) {
+				hasT, hasF = true, true
+			}
+		}
+		for i, pr := range hdr.Preds {
+			if hdr.Dominates(pr) {
+				walk(ph.Edges[i])
+			}
+		}
+		if hasT && hasF {
+			quote[ph] = true
+		}
+	}
+	if len(quote) == 0 {
+		r.Unknown(rule, name, "the escape flag follows every byte of a string", p.Pos(fn.Pos()), "the in-string flag of the scanner was not recognised")
+		return
+	}
+	isCount := func(v ssa.Value) bool {
+		ex, ok := v.(*ssa.Extract)
+		if !ok || ex.Index != 0 {
+			return false
+		}
+		c, ok := ex.Tuple.(ssa.CallInstruction)
+		return ok && c.Common().IsInvoke() && c.Common().Method.Name() == "Read"
+	}
+	_ = body
+	// the escape flag: the header phi whose new value is computed from the comparison with the backslash
+	var esc *ssa.Phi
+	for _, in := range hdr.Instrs {
+		ph, ok := in.(*ssa.Phi)
+		if !ok {
+			break
+		}
+		if !isBoolType(ph.Type()) || quote[ph] {
+			continue
+		}
+		for i, pr := range hdr.Preds {
+			if !hdr.Dominates(pr) {
+				continue
+			}
+			for x := range backwardSliceStop(fn, ph.Edges[i], ph) {
+				if bo, ok := x.(*ssa.BinOp); ok && bo.Op == token.EQL && isByte(bo.X) {
+					if k, isK := constInt(bo.Y); isK && k == 92 {
+						esc = ph
+					}
+				}
+			}
+		}
+	}
+	if esc == nil {
+		r.Unknown(rule, name, "the escape flag follows every byte of a string", p.Pos(fn.Pos()), "the escape flag of the scanner was not recognised")
+		return
+	}
+	bad := ""
+	for i, pr := range hdr.Preds {
+		if !hdr.Dominates(pr) {
+			continue
+		}
+		// does this back edge carry the flag over unchanged?
+		carried := false
+		seenV := map[ssa.Value]bool{}
+		var walk func(v ssa.Value)
+		walk = func(v ssa.Value) {
+			if seenV[v] {
+				return
+			}
+			seenV[v] = true
+			if v == ssa.Value(esc) {
+				carried = true
+				return
+			}
+			if q, ok := v.(*ssa.Phi); ok {
+				for _, e := range q.Edges {
+					walk(e)
+				}
+			}
+		}
+		walk(esc.Edges[i])
+		if !carried {
+			continue
+		}
+		// allowed where no byte was received, or where the scanner is outside a string
+		okEdge := false
+		gsEdge := dominatingGuards(pr)
+		if ifi, ok := pr.Instrs[len(pr.Instrs)-1].(*ssa.If); ok {
+			for si, sc := range pr.Succs {
+				if sc == hdr {
+					gsEdge = append(gsEdge, guard{ifi.Cond, si == 0})
+				}
+			}
+		}
+		for _, g := range expandAndGuards(gsEdge) {
+			ng := normGuard(g)
+			if bo, ok := ng.Cond.(*ssa.BinOp); ok && isCount(bo.X) {
+				if k, isK := constInt(bo.Y); isK && k == 0 && ((bo.Op == token.EQL && ng.Pol) || (bo.Op == token.NEQ && !ng.Pol) || (bo.Op == token.GTR && !ng.Pol)) {
+					okEdge = true
+				}
+			}
+			if v, val := boolTest(g); quote[v] && !val {
+				okEdge = true
+			}
+		}
+		// a merged latch: the carried value may come in over some inner edges only; judge the inner predecessors
+		if !okEdge {
+			if q, ok := esc.Edges[i].(*ssa.Phi); ok && q != esc {
+				allOK := true
+				for j, e := range q.Edges {
+					if e != ssa.Value(esc) {
+						continue
+					}
+					inner := q.Block().Preds[j]
+					innerOK := false
+					for _, g := range expandAndGuards(dominatingGuards(inner)) {
+						if v, val := boolTest(g); quote[v] && !val {
+							innerOK = true
+						}
+						ng := normGuard(g)
+						if bo, ok := ng.Cond.(*ssa.BinOp); ok && isCount(bo.X) {
+							if k, isK := constInt(bo.Y); isK && k == 0 && ((bo.Op == token.EQL && ng.Pol) || (bo.Op == token.NEQ && !ng.Pol)) {
+								innerOK = true
+							}
+						}
+					}
+					if !innerOK {
+						allOK = false
+					}
+				}
+				okEdge = allOK
+			}
+		}
+		if !okEdge {
+			bad = p.Pos(firstPos(pr))
+		}
+	}
+	if bad == "" {
+		r.OK(rule, name, "the escape flag follows every byte of a string", p.Pos(firstPos(upd)), "inside a string no byte other than the quote returns to the read without passing the comparison with the backslash")
+	} else {
+		r.Bad(rule, name, "the escape flag follows every byte of a string", bad, "inside a string a byte can return to the read (from "+bad+") without the escape flag having been recomputed: after an escape such as \\\\n the flag stays set and the next quote is taken for an escaped one")
+	}
 }
